@@ -569,13 +569,22 @@ def equivalence_family(rng, n_random):
         for f in which:
             body += [("raw", ":"), ("emit", ("attr", ("var", "loop"), f))]
         return body + [("raw", ",")]
-    strings = ["", "a", "ab", "abc", "hello world", "x<y", "aXbXc"]
+    # a string iterates over its CODE POINTS: 2-, 3-, 4-byte characters, combining marks, mixed (the model's
+    # upper / lower are ASCII-only: the case filters stay with the ASCII strings)
+    strings = ["", "a", "ab", "abc", "hello world", "x<y", "aXbXc",
+               "h\u00e4l", "\u00e9", "\u65e5\u672c\u8a9e", "a\U0001F600b", "e\u0301x", "\u00df\u20ac\U0001D11E", "b\u00fcb\u00fc", "\U0001F600\U0001F601"]
     k = 0
     for sv in strings:
-        for subj in ("ctx", "lit", "concat", "upper"):
+        ascii_only = all(ord(ch) < 128 for ch in sv)
+        for subj in ("ctx", "lit", "concat", "upper" if ascii_only else "concat2", "trim", "reverse"):
+            if subj in ("trim", "reverse") and ascii_only and sv not in ("abc", "x<y"):
+                continue
             if subj == "ctx": lsub, val, ctx = "s", sv, {"s": sv}
             elif subj == "lit": lsub, val, ctx = proggen.q(sv), sv, {}
             elif subj == "concat": lsub, val, ctx = '(s ~ "!z")', sv + "!z", {"s": sv}
+            elif subj == "concat2": lsub, val, ctx = '("\u00fc" ~ s ~ s)', "\u00fc" + sv + sv, {"s": sv}
+            elif subj == "trim": lsub, val, ctx = "pad|trim", sv, {"pad": "  " + sv + " \n"}
+            elif subj == "reverse": lsub, val, ctx = "s|reverse", sv[::-1], {"s": sv}
             else: lsub, val, ctx = "s|upper", sv.upper(), {"s": sv}
             for variant in range(6):
                 k += 1
@@ -660,7 +669,8 @@ def loop_attr_family(rng, n_random):
     comes before / after / iterations away from the first read of another one."""
     out = []
     xs = [10, 20, 20, 30]
-    ctx = {"xs": xs, "ws": ["b", "a", "c"], "s": "abca", "d": {"a": 1, "b": 2, "c": 3}, "e": [], "one": [7],
+    U = "h\u00e4l\u20ac\U0001F600e\u0301"
+    ctx = {"xs": xs, "ws": ["b", "a", "c"], "s": "abca", "d": {"a": 1, "b": 2, "c": 3}, "e": [], "one": [7], "u": U, "uu": "\u00fc\u00fc", "ud": {"\u00e4": 1, "\u65e5": 2},
            "tree": [{"v": 1, "c": [{"v": 2, "c": []}, {"v": 3, "c": [{"v": 4, "c": []}]}]}, {"v": 5, "c": []}, {"v": 5, "c": []}]}
     subjects = [          # (source of the iterated expression, optional filter source, the sequence actually iterated)
         ("xs", None, xs), ("[1, 2, 3]", None, [1, 2, 3]), ("ws", None, ["b", "a", "c"]), ("s", None, list("abca")),
@@ -670,6 +680,10 @@ def loop_attr_family(rng, n_random):
         ('xs|map("abs")', None, xs), ("range(5)|list", None, [0, 1, 2, 3, 4]), ("one", None, [7]), ("e", None, []),
         ("xs", "x != 10", [20, 20, 30]), ("range(6)", "x is odd", [1, 3, 5]), ("s", 'x != "b"', list("aca")),
         ("d", 'x != "a"', ["b", "c"]), ("xs", "x > 100", []),
+        # strings with multi-byte characters: the sequence iterated is the sequence of code points
+        ("u", None, list(U)), ('"\u65e5\u672c\u8a9e"', None, list("\u65e5\u672c\u8a9e")), ('(u ~ "\u00e9")', None, list(U + "\u00e9")), ("u|reverse", None, list(U[::-1])),
+        ("uu", None, ["\u00fc", "\u00fc"]), ("u", 'x != "l"', [ch for ch in U if ch != "l"]), ('(uu ~ "a")|trim', None, ["\u00fc", "\u00fc", "a"]),
+        ("ud", None, ["\u00e4", "\u65e5"]), ("u|list", None, list(U)), ("u[1:]", None, list(U[1:])),
     ]
 
     def reads_src(reads, var="loop", item="x", sub=""):
